@@ -37,6 +37,10 @@ def build_sequence(rng, n, big=False):
                 m = N.app_answer(seq, size=size)
             kinds.append(("APP", seq))
         msgs.append(m)
+        if kinds[-1][0] == "APP" and rng.random() < 0.06:
+            # the peer sends the very same message again (a retransmission): it is a message of the sequence like any other
+            msgs.append(m)
+            kinds.append(kinds[-1])
         seq += 1
     return msgs, kinds
 
